@@ -133,7 +133,7 @@ def cone(vfile, seen=None):
     except OSError:
         return seen
     src = re.sub(r"\(\*.*?\*\)", "", src, flags=re.S)
-    for m in re.finditer(r"From PM Require(?: Import| Export)?\s+(.+?)\.\s*$", src, re.M):
+    for m in re.finditer(r"From PM Require(?: Import| Export)?\s+(.+?)\.\s*\n", src, re.S):
         for mod in m.group(1).split():
             path = mod.replace(".", "/") + ".v"
             cone(path, seen)
